@@ -621,6 +621,11 @@ func (r *Reader) RefsFor(oid []byte) (*Iterator, error) {
 		return r.refsForIndexed(oid)
 	}
 
+	return r.refsForLinear(oid)
+}
+
+// refsForLinear filters a scan of all refs.
+func (r *Reader) refsForLinear(oid []byte) (*Iterator, error) {
 	it, err := r.start(blockTypeRef, false)
 	if err != nil {
 		return nil, err
@@ -654,6 +659,11 @@ func (r *Reader) refsForIndexed(oid []byte) (*Iterator, error) {
 	}
 	if !ok || got.key() != want.key() {
 		return &Iterator{&emptyIterator{}}, nil
+	}
+	if len(got.Offsets) == 0 {
+		// The writer omits the block positions of an object that
+		// occurs in too many blocks; scan the refs instead.
+		return r.refsForLinear(oid)
 	}
 
 	tr := &indexedTableRefIter{
